@@ -9,6 +9,7 @@ def pOp : P Op := do
   match t with
   | "n" => pure .next
   | "s" => do let p ← int; pure (.seek p)
+  | "sx" => pure .seekBad
   | "c" => pure .close
   | "z" => do let s ← nat; pure (.setSize s)
   | "k" => do let p ← int; pure (.imgSeek p)
@@ -67,6 +68,8 @@ def pHttp : P Http := do
   | "ok" => pure .ok
   | "notfound" => pure .notFound
   | "connerr" => pure .connError
+  | "badtype" => pure .badType
+  | "badurl" => pure .badUrl
   | _ => failure
 
 /-- a scenario: the program, whether the image has a PIL source, dynamic size, start seek position -/
@@ -172,6 +175,16 @@ def handler : Handler := fun op args =>
   | "res" => Wire.run (do
       let s ← pScn; let fault ← optOf nat
       pure ("ok " ++ runScn s fault)) args
+  | "ictor" => Wire.run (do
+      let isImage ← bool; let animated ← bool; let r ← word; let specIsStr ← bool; let specValid ← bool; let cw ← word
+      let rep ← (match r with | "ok" => pure RepArg.ok | "zero" => pure .zero | "notint" => pure .notInt | _ => failure : P RepArg)
+      let cached ← (match cw with | "ok" => pure CachedArg.ok | "notint" => pure .notInt | "nonpos" => pure .nonPos
+                                  | _ => failure : P CachedArg)
+      pure (match initCheck isImage animated rep specIsStr specValid cached with
+        | some e => "err " ++ e | none => "ok")) args
+  | "bctor" => Wire.run (do
+      let isPil ← bool; let nonNull ← bool
+      pure (match imageCheck isPil nonNull with | some e => "err " ++ e | none => "ok")) args
   | "meth" => Wire.run (do
       let m ← pMethod; let animated ← bool; let frame ← bool
       pure ("ok " ++ (match effMethod m animated frame with
